@@ -6,7 +6,7 @@ def repo_commit(prefix):
     out = subprocess.run(["git", "-C", "/repo", "log", "--format=%h %s"], capture_output=True, text=True).stdout
     return [l.split()[0] for l in out.splitlines() if prefix in l]
 
-hooks = repo_commit("Add guarded")
+hooks = repo_commit("(cfg simple_sds_verif")
 
 checks = [
  ("C06", "streamsim", "exploration", "5 (C06)",
